@@ -620,6 +620,16 @@ impl World {
                 })());
                 Observed::NoCall
             }
+            Op::ChmodToml { layer, mode } => {
+                let t = to_path(&self.root, &model_after.ltoml(*layer));
+                harness(fs::set_permissions(&t, fs::Permissions::from_mode(*mode)));
+                Observed::NoCall
+            }
+            Op::RewriteSource { idx, data } => {
+                // in place: open for writing, truncate, write (what `fs::write` does)
+                harness(fs::write(self.root.join(format!("execd_src/p{idx}")), data));
+                Observed::NoCall
+            }
             Op::ChmodLayer { layer, mode } => {
                 let d = self.layer_path(*layer);
                 harness(fs::set_permissions(&d, fs::Permissions::from_mode(*mode)));
